@@ -4,10 +4,12 @@ package c16
 import (
 	"bytes"
 	"fmt"
+	"io"
 	"os"
 	"os/exec"
 	"path/filepath"
 	"sync"
+	"syscall"
 	"testing"
 	"time"
 
@@ -45,6 +47,13 @@ type Case struct {
 	// QuietMs > 0 (pipe): after chunk number QuietAfter the source sends nothing for that long, stdin open.
 	QuietMs    int `json:"quiet_ms"`
 	QuietAfter int `json:"quiet_after_chunk"`
+	// LocalSod > 0: the program runs with a private time zone in which the local time of day at its start is
+	// that many seconds after midnight (just after local midnight, say, while it is another date in UTC).
+	LocalSod int `json:"local_time_of_day_at_start_s"`
+	// NonblockStdin (pipe): stdin is a pipe whose open file description another process (here: the harness,
+	// which shares it) has switched to O_NONBLOCK after the program started - reads find EAGAIN whenever
+	// the pipe is momentarily empty.  That is not end of input.
+	NonblockStdin bool `json:"stdin_made_nonblocking_by_peer"`
 }
 
 // tzif builds a minimal TZif (version 1) file for a fixed offset from UTC.
@@ -150,10 +159,14 @@ func check(c Case, o *stats.Obs) error {
 	cmd := exec.Command(bin, "-c", cfgPath)
 	cmd.Dir = dir
 	cmd.Env = append(os.Environ(), fmt.Sprintf("GOMAXPROCS=%d", c.Procs))
-	if c.MidnightIn > 0 {
+	if c.MidnightIn > 0 || c.LocalSod > 0 {
 		now := time.Now().UTC()
 		sod := now.Hour()*3600 + now.Minute()*60 + now.Second()
-		off := (86400 - c.MidnightIn - sod) % 86400 // local = UTC + off = 24:00:00 - MidnightIn
+		want := 86400 - c.MidnightIn // local = UTC + off = 24:00:00 - MidnightIn
+		if c.MidnightIn == 0 {
+			want = c.LocalSod
+		}
+		off := ((want-sod)%86400 + 86400) % 86400
 		if off > 43200 {
 			off -= 86400
 		}
@@ -169,8 +182,20 @@ func check(c Case, o *stats.Obs) error {
 	cmd.Stdout, cmd.Stderr = &stdout, &stderr
 	var feed func()
 	withheld := make(chan string, 1)
+	var nbRead *os.File
 	if c.Pipe {
-		w, err := cmd.StdinPipe()
+		var w io.WriteCloser
+		var err error
+		if c.NonblockStdin {
+			var r *os.File
+			r, w, err = os.Pipe()
+			if err == nil {
+				cmd.Stdin = r // passed as it is: the child shares the open file description
+				nbRead = r
+			}
+		} else {
+			w, err = cmd.StdinPipe()
+		}
 		if err != nil {
 			o.Skip = true
 			return nil
@@ -231,6 +256,14 @@ func check(c Case, o *stats.Obs) error {
 		o.Skip = true
 		return nil
 	}
+	if nbRead != nil {
+		// Fd() leaves the descriptor usable for fcntl; the flag lives in the shared open file description
+		if err := syscall.SetNonblock(int(nbRead.Fd()), true); err != nil {
+			stats.HarnessBug("set nonblock: %v", err)
+		}
+		defer nbRead.Close()
+		o.Class("stdin-nonblocking")
+	}
 	if feed != nil {
 		go feed()
 	}
@@ -289,6 +322,9 @@ func check(c Case, o *stats.Obs) error {
 	if c.LogEvents {
 		o.Class("log-events")
 	}
+	if c.LocalSod > 0 {
+		o.Class(fmt.Sprintf("local-time-at-start-%02d:%02d", c.LocalSod/3600, c.LocalSod/60%60))
+	}
 	if c.SameDir && c.LogEvents {
 		o.Class("event-log-in-record-directory")
 	}
@@ -328,6 +364,15 @@ func gen1(t *rapid.T) Case {
 	c.YieldSeed = rapid.IntRange(0, 1<<20).Draw(t, "yieldSeed")
 	c.RecordFull = rapid.IntRange(0, 9).Draw(t, "recordFull") == 5
 	c.SameDir = c.LogEvents && rapid.Bool().Draw(t, "sameDir")
+	if rapid.IntRange(0, 3).Draw(t, "localTime") == 1 {
+		c.LocalSod = rapid.SampledFrom([]int{40, 1200, 7 * 3600, 43200, 86000}).Draw(t, "localSod")
+	}
+	if c.Pipe && rapid.IntRange(0, 3).Draw(t, "nonblock") == 2 {
+		c.NonblockStdin = true
+		if c.PauseUs == 0 {
+			c.PauseUs = 500
+		}
+	}
 	return c
 }
 
